@@ -108,4 +108,18 @@ func init() {
 			{dir: "objects", name: "isValidKey"},
 		})
 	})
+	register("CodeAries", func(repo string) (string, error) {
+		routes := pspec{src: "r.routes", name: "r_routes", typ: "[]string"}
+		return emitCodeArea(repo, "CodeAries", []codeTarget{
+			{dir: "aries", recv: "route", name: "size", cfg: transCfg{params: []pspec{routes}}},
+			{dir: "aries", recv: "route", name: "relRoute", cfg: transCfg{params: []pspec{
+				routes, {src: "i", name: "i", typ: "int"}}}},
+			{dir: "aries", recv: "C", name: "ShiftRoute", cfg: transCfg{
+				stateOut: []string{"c.routePos"},
+				calls:    map[string]string{"c.route.size": "aries|route|size"},
+				params: []pspec{{src: "c.route.routes", name: "c_route_routes", typ: "[]string"},
+					{src: "c.routePos", name: "c_routePos", typ: "int"},
+					{src: "inc", name: "inc", typ: "int"}}}},
+		})
+	})
 }
